@@ -52,6 +52,11 @@ def _progs(tier: str) -> List[Dict[str, Any]]:
     for k in ALL:
         for f, root in itertools.product(FORMATS, ["container", "sequential"]):
             out.append({"prog": {"items": [["op", k]], "sink": "sum", "root": root}, "fmt": f})
+    # dtype coordinate: float64 / bfloat16 modules (quantisation happens in float32, the result keeps the dtype)
+    for n, k in enumerate(LIN + ULIN + ATT):
+        for dt in ("float64", "bfloat16"):
+            out.append({"prog": {"items": [["op", k], ["op", "gelu:F"]], "sink": "sum", "dtype": dt}, "fmt": FORMATS[n % 4]})
+            out.append({"prog": {"items": [["op", "layer_norm:F"], ["op", k]], "sink": "mse", "dtype": dt}, "fmt": FORMATS[(n + 1) % 4]})
     mods = ["linear:nn", "linear:nn_nobias", "gelu:nn", "layer_norm:nn", "softmax:nn"]
     for f in FORMATS:
         for k in ("linear:nn", "linear:nn_nobias"):
@@ -177,7 +182,7 @@ def run_case(case: Dict[str, Any]) -> Dict[str, Any]:
     keys = keys_of(prog["items"])
     nq = sum(1 for k in keys if ALPHABET[k]["fn"] in QUANT_OPERANDS)
     kinds = sorted({k.split(":")[0] for k in keys})
-    ident = f"prog|fmt={fname}|root={prog.get('root', 'container')}|ops={'+'.join(kinds)}"
+    ident = f"prog|fmt={fname}|root={prog.get('root', 'container')}|ops={'+'.join(kinds)}" + (f"|dtype={prog['dtype']}" if prog.get("dtype") else "")
     m, src = build(prog, case["seed"])
     inp = inputs(prog, case["seed"])
     fwd, bwd = _formats(fname)
@@ -260,7 +265,7 @@ def run_case(case: Dict[str, Any]) -> Dict[str, Any]:
                 err = (a - b).abs().max().item() if a is not None and b is not None else float("nan")
                 viol.append({"key": ident + "|gradient_differs_from_hand_quantised", "msg": f"{n}: max err {err:.3e}\n" + src})
                 break
-    if fname == "lossless" and not viol:
+    if fname == "lossless" and not viol and prog.get("dtype") != "float64":  # (E8M23 is not lossless for float64 data)
         if not torch.equal(y_imp, y_plain) or any(
                 (g_imp[n] is None) != (g_plain[n] is None) or (g_imp[n] is not None and not torch.equal(g_imp[n], g_plain[n]))
                 for n in g_plain):
